@@ -750,19 +750,62 @@ func TestFromFiles(t *testing.T) {
 		map[string]string{"big.p": filler + "use(\"missing.p\")\n", "user.p": "use(\"big.p\")", "late.p": filler + "x = \"a string that ends behind the mark\"\nuse(\"b.p\")\n", "b.p": "add_key(b, 1)"},
 	)
 	n := 0
-	for si, set := range sets {
+	for si0 := 0; si0 < 3*len(sets); si0++ {
+		si, variant := si0/3, si0%3
+		set := sets[si]
 		dir, err := os.MkdirTemp("", "c09files")
 		if err != nil {
 			t.Fatalf("harness: %v", err)
 		}
-		for nm, txt := range set {
-			if werr := os.WriteFile(filepath.Join(dir, nm), []byte(txt), 0o644); werr != nil {
+		outside := ""
+		var snames []string
+		for nm := range set {
+			snames = append(snames, nm)
+		}
+		sort.Strings(snames)
+		for i, nm := range snames {
+			txt := set[nm]
+			target := filepath.Join(dir, nm)
+			if variant == 2 && (i == len(snames)-1 || i == 0 && len(snames) > 2) {
+				// the script is present as a symbolic link to a file kept elsewhere (a library shared between workspaces)
+				if outside == "" {
+					if outside, err = os.MkdirTemp("", "c09shared"); err != nil {
+						t.Fatalf("harness: %v", err)
+					}
+				}
+				real := filepath.Join(outside, "shared-"+nm)
+				if werr := os.WriteFile(real, []byte(txt), 0o644); werr != nil {
+					t.Fatalf("harness: %v", werr)
+				}
+				if lerr := os.Symlink(real, target); lerr != nil {
+					t.Fatalf("harness: %v", lerr)
+				}
+				continue
+			}
+			if werr := os.WriteFile(target, []byte(txt), 0o644); werr != nil {
 				t.Fatalf("harness: %v", werr)
+			}
+		}
+		if variant == 1 {
+			// things in the directory that are not scripts of the set: sub-directories (also one named like a script) holding
+			// script files - with names the set uses, names the set misses, names of members - and files with other extensions
+			for _, sub := range []string{"old", "archive", "zlib.p", ".hidden"} {
+				_ = os.MkdirAll(filepath.Join(dir, sub, "deeper"), 0o755)
+				for _, nm := range []string{"b.p", "missing.p", "a.p", "c.p", "b.ppl", "extra.p"} {
+					_ = os.WriteFile(filepath.Join(dir, sub, nm), []byte("add_key(from_subdirectory, 1)\nuse(\"a.p\")\n"), 0o644)
+					_ = os.WriteFile(filepath.Join(dir, sub, "deeper", nm), []byte("x = = 1"), 0o644)
+				}
+			}
+			for _, nm := range []string{"notes.txt", "a.p.bak", "b.p~", "missing.p.txt", "missing", "p", "ppl", "README.ppl.md"} {
+				_ = os.WriteFile(filepath.Join(dir, nm), []byte("add_key(not_a_script, 1)"), 0o644)
 			}
 		}
 		got, paths, rerr := engine.ReadPlScriptFromDir(dir)
 		_ = os.RemoveAll(dir)
-		rp := map[string]any{"files": set}
+		if outside != "" {
+			_ = os.RemoveAll(outside)
+		}
+		rp := map[string]any{"files": set, "directory": []string{"only the scripts", "plus sub-directories with script files and files with other extensions", "some scripts are symbolic links to files elsewhere"}[variant]}
 		if rerr != nil {
 			rk.Fail(t, "from-files", rp, "ReadPlScriptFromDir failed: %v", rerr)
 		}
@@ -788,7 +831,7 @@ func TestFromFiles(t *testing.T) {
 				rk.Fail(t, "from-files", rp, "script %s: error %v when read from the directory, %v when loaded from the same text", nm, e1, e2)
 			}
 		}
-		evid.Case(fmt.Sprintf("fromfiles/%d", si), true, "from-files")
+		evid.Case(fmt.Sprintf("fromfiles/%d/%d", si, variant), true, "from-files", []string{"from-files/plain", "from-files/with-subdirectories-and-other-files", "from-files/symbolic-links"}[variant])
 		n++
 	}
 	evid.Exhaustive("sets with blank lines, indentation and blank-only scripts read back from a directory", n)
